@@ -87,7 +87,7 @@ class TrajProgram(ProgramBase):
                             [1, 2, 3, -9, -11, 139][k.choose("fail_code", 6)])
             self.sim.k.fault("program_nonzero_exit")
         self.early = False
-        if self.fail_at is None and scn.get("early_exit") and k.flip("early_exit", 0.5):
+        if self.fail_at is None and scn.get("early_exit") and k.flip("early_exit", 0.8):
             # the program ends normally (code 0) before the requested number of steps
             nf = 1 + k.choose("early_frames", self.nframes)
             hint = scn.get("early_hint")
@@ -146,8 +146,17 @@ class TrajProgram(ProgramBase):
                 self._finish(0)
             return
         mode = self.chunk_mode
+        if mode == "tail1":
+            # everything but the last frame in one go, then the last frame and the exit in one instant
+            if done < limit - 1:
+                self._write_frames(limit - 1)
+                return
+            self._write_frames(limit)
+            self.sim.k.probe("exit_with_last_write")
+            self._finish(self.fail_at[1] if self.fail_at is not None else 0)
+            return
         # neutral decision (0) must make progress: exactly one more frame
-        choice = k.choose("chunk", 6) if mode == "mixed" else {"frame": 0, "burst": 3, "bytes": 2, "all": 5}[mode]
+        choice = k.choose("chunk", 6) if mode == "mixed" else {"frame": 0, "burst": 3, "bytes": 2, "all": 5}.get(mode, 0)
         if choice == 1:
             self.sim.k.probe("empty_poll")
             return                                              # nothing new this tick
